@@ -12,7 +12,7 @@ from . import prims
 from .core import DONE, TICKS
 from .scenario import Violation
 
-FILTERS = [None, ["FileCreatedEvent"], ["FileCreatedEvent", "DirCreatedEvent"]]
+FILTERS = [None, ["FileCreatedEvent"], ["FileCreatedEvent", "DirCreatedEvent"], []]  # [] = a filter that accepts nothing
 REMOVERS = ("unschedule", "remove_handler", "unschedule_all", "stop")
 
 
